@@ -30,6 +30,9 @@ def cases(tier):
             members[-1] = dict(members[-1], tamper={'op': 'scalar_add_delta', 'elem': 3 + 1})   # the member that would fall off the end is invalid (r1 shifted; x = 1)
             out.append({'cfg': {'scenario': 'batch', 'n': 4, 'x': 1, 'members': members, key: 1, 'actions': ['VerifyOnly', 'RecoverAndVerify']}, 'kind': 'shape',
                         'name': 'batch of %d with %s=1 and an invalid last member' % (k, key)})
+    # more than 256 commitments: generator positions whose party index needs a second byte
+    cfg = {'scenario': 'adversarial', 'n': 1, 'x': 1, 'members': [{'m': 512, 'cap': 512, 'rounds': 9, 'promises': [None] * 512}], 'actions': ['VerifyOnly']}
+    out.append({'cfg': cfg, 'kind': 'relation', 'name': 'relation n1 m512 c512 x1'})
     for (n, m, cap, x) in lattice(tier):
         if n * m < 2:
             continue   # a proof with zero rounds cannot be decoded from bytes (C15); (1,1) is covered through the prover in C01
